@@ -40,7 +40,7 @@ func GenChapter(t *rapid.T, text TextFn) Chapter {
 // nameForms: %d is the file number. Blanks, non-ASCII letters and sub-delimiters
 // (notably '+') are legal in OCF file names (EPUB33 4.2.4) and must be matched
 // after percent-decoding the href (EPUB33 4.2.5, RFC 3986 2.1).
-var nameForms = []string{"ch%d", "ch%d", "chapter%d", "chapter %d", "ch+%d", "chapître%d", "第%d章", "c_%d-(a)", "ch%d&co", "Kapitel %d ä"}
+var nameForms = []string{"ch%d", "ch%d", "chapter%d", "chapter %d", "ch+%d", "chapître%d", "第%d章", "c_%d-(a)", "ch%d&co", "Kapitel %d ä", "ch#%d", "part%d#final", "50%%off%d"}
 var dirForms = []string{"", "", "Text/", "text/sub/", "xhtml/"}
 var extForms = []string{".xhtml", ".xhtml", ".xhtml", ".html", ".htm", ".xml"}
 var hrefStyles = []string{"", "", "uri", "lower", "full"}
